@@ -36,8 +36,13 @@ def bytesLe : Bytes → Bytes → Bool
 def pairLe (a b : Bytes × Bytes) : Bool :=
   if a.1 = b.1 then bytesLe a.2 b.2 else bytesLe a.1 b.1
 
-/-- `sorted(attrs.items())` -/
-def sortAttrs (as : Attrs) : Attrs := as.mergeSort pairLe
+def insertAttr (a : Bytes × Bytes) : Attrs → Attrs
+  | [] => [a]
+  | b :: r => if pairLe a b then a :: b :: r else b :: insertAttr a r
+
+/-- `sorted(attrs.items())` (the order is total and XML attribute names are unique, so every sorting
+algorithm gives the same list; insertion sort is used because the kernel can evaluate it) -/
+def sortAttrs (as : Attrs) : Attrs := as.foldr insertAttr []
 
 def blacklist : List Bytes := Generated.Keyring.blacklist
 
@@ -310,8 +315,12 @@ def ifaceGroups (i : Iface) : Dict (List Nat) :=
   i.groups.foldl (fun d g => d.set g.1 g.2) []
 
 /-- `{ga.address: ga.decrypted_key for ga in group_addresses if ga.decrypted_key is not None}` -/
-def gaKeyTable (gs : List Grp) : Dict Bytes :=
-  gs.foldl (fun d g => match g.key with | some k => d.set g.addr k | none => d) []
+def gaKeyStep (d : Dict Bytes) (g : Grp) : Dict Bytes :=
+  match g.key with
+  | some k => d.set g.addr k
+  | none => d
+
+def gaKeyTable (gs : List Grp) : Dict Bytes := gs.foldl gaKeyStep []
 
 /-- `get_data_secure_group_keys(receiver)` -/
 def groupKeys (ifs : List Iface) (gs : List Grp) (receiver : Option Nat) : Dict Bytes :=
